@@ -5,6 +5,7 @@ renders (harness/cmd/extract/guards.go → Gen/Guards*.lean), over `Int`:
 Everything else in a translated condition is integer arithmetic and comparison.
 -/
 import Iso8583.Gen.Consts
+import Iso8583.Spec.GuardFnsBits
 namespace Iso8583.GuardFns
 
 /-- number of decimal digits of `n` (1 for 0), by fuel -/
